@@ -17,7 +17,8 @@ RULE = ('solved 2021-2023 returns (answer-on-demand) x transformations: all perm
         'with 2-3 copies; W-2 box_1 + delta; each deductible input (Schedule A amounts, Schedule 1 adjustments, HSA contribution, early '
         'withdrawal penalty) + delta; each withholding/payment input + delta; delta from cents to 1e5 and sized to cross brackets/floors. '
         'Pairs whose second return does not solve are dropped and counted. Non-trivial = a pair in which the transformed input is actually '
-        'read and the compared quantity changes (for permutations: >= 2 copies with different contents); distinct = (base, transformation)')
+        'read and the compared quantity changes (for permutations: >= 2 copies with different contents); distinct = (base, transformation)'
+        " Threshold sweep: AGI exactly on every literal/threshold of the participating forms and every multiple of $10,000 within reach, against AGI a little above it; deduction cliffs: every deductible input on every literal of its own form against a little above it (inputs only the second return demands are answered by the persona's policy).")
 ASSUMPTIONS = ['money lines may differ by one cent after renumbering (float summation order); NC lines by one dollar (the state rounds each line)',
                'the listed deductible inputs are deductions under the law for the supported situations']
 
@@ -124,6 +125,9 @@ def shard(ctx, k, payload):
         if data.draw(st.integers(0, 2)) == 0:
             # several payers with enough interest/dividends for Schedule B (per-payer listing lines)
             p.update(n_int=data.draw(st.sampled_from([1, 2, 3])), n_div=data.draw(st.sampled_from([0, 2, 3])), big_interest=True, amount_bias='large')
+        if data.draw(st.integers(0, 7)) == 0:
+            # wages above the Additional Medicare Tax threshold (Form 8959 then adds to the withholding of line 25c)
+            p.update(status='Single', wage_level='high', n_w2=1, deps=[])
         if data.draw(st.integers(0, 5)) == 0:
             # state withholding on statements of both spouses (NC lines 20a/20b walk every payer statement)
             p.update(forms=['1040', 'nc_d-400'], status='MarriedFilingJointly', n_r=data.draw(st.sampled_from([2, 3])), both_spouses_1099r=True,
@@ -138,8 +142,21 @@ def shard(ctx, k, payload):
         bq = quantities(base)
         pol = scenario.Policy(p, data.draw)
         read = {key for _, reads, _ in base.trace.attempts for kind, key, o, _v in reads if kind == 'i' and o == 'ok'}
-        for _ in range(nvar):
-            kind = data.draw(st.sampled_from(['perm', 'perm', 'wage', 'wage', 'deduct', 'deduct', 'withhold']))
+        # two renumberings and two wage changes per return, and one change of EVERY withholding and deductible input
+        # it has (a drawn sample of nvar when there are more)
+        tasks = [('perm', None), ('perm', None), ('wage', None), ('wage', None)]
+        wcands = sorted(k_ for k_ in inputs if matches(k_, WITHHOLDING))
+        for form_, box_ in (('w-2', 'box_2'), ('1099-int', 'box_4'), ('1099-div', 'box_4'), ('1099-r', 'box_4'), ('1099-g', 'box_4')):
+            try:
+                n_ = int(inputs.get(f'1040.number_{form_}', '0').strip() or 0)
+            except ValueError:
+                n_ = 0
+            wcands += [f'{form_}:{c_}.{box_}' for c_ in range(n_) if f'{form_}:{c_}.{box_}' not in inputs]
+        more = [('withhold', k_) for k_ in sorted(set(wcands))] + [('deduct', k_) for k_ in sorted(k_ for k_ in inputs if matches(k_, DEDUCTIBLE))]
+        if len(more) > nvar * 2:
+            more = data.draw(st.lists(st.sampled_from(more), min_size=nvar * 2, max_size=nvar * 2, unique=True))
+        tasks += more
+        for kind, preset in tasks:
             case = {'scenario': scenario.slim(sc), 'kind': kind}
             if kind == 'perm':
                 forms = [f for f in NUMBERED if sum(1 for k_ in inputs if k_.startswith(f + ':1.')) > 0]
@@ -165,7 +182,9 @@ def shard(ctx, k, payload):
                 continue
             pats = {'wage': WAGES, 'deduct': DEDUCTIBLE, 'withhold': WITHHOLDING}[kind]
             cands = sorted(k_ for k_ in inputs if matches(k_, pats))
-            if kind == 'withhold':
+            if preset is not None:
+                cands = [preset]
+            elif kind == 'withhold':
                 # the withholding box of every payer statement in the file, also when the demand-driven build never
                 # asked for it (a box that no line reads would otherwise never be a candidate)
                 for form_, box_ in (('w-2', 'box_2'), ('1099-int', 'box_4'), ('1099-div', 'box_4'), ('1099-r', 'box_4'), ('1099-g', 'box_4')):
@@ -371,9 +390,9 @@ def shard_cliffs(ctx, k, payload):
 
 def run(ctx):
     quick = ctx.tier == 'quick'
-    nc_, mt = (160, 120) if quick else (2400, 160)
+    nc_, mt = (256, 120) if quick else (2400, 160)
     hyp.pmap(ctx, shard_cliffs, [(max(1, nc_ // 16), mt, ctx.seed * 1000 + 700 + k) for k in range(16)])
-    n, nvar = (400, 6) if quick else (10000, 12)
+    n, nvar = (320, 6) if quick else (8000, 10)
     shards = 16
     hyp.pmap(ctx, shard, [(max(1, n // shards), nvar, ctx.seed * 1000 + k) for k in range(shards)])
 
